@@ -177,3 +177,138 @@ func oAltRoot(d *drv, oAlt **obs, altInline []byte, hi int) string {
 	}
 	return (*oAlt).Root
 }
+
+// ---- history independence of the loader's cache ----
+
+type histStep struct {
+	Doc  string `json:"doc"`
+	Want string `json:"want"` // root with the served context inline
+	URL  string `json:"url"`
+}
+type histNote struct {
+	Served map[string]string `json:"served"` // normalised URL (no fragment, lower-case host) -> body
+	Seq    []histStep        `json:"seq"`
+	Family string            `json:"family"`
+}
+
+// histTransport: like a real server: fragments never reach it, host names are case-insensitive.
+type histTransport struct {
+	mu   sync.Mutex
+	docs map[string]string
+}
+
+func histKey(req *http.Request) string {
+	u := *req.URL
+	u.Fragment, u.RawFragment = "", ""
+	u.Host = strings.ToLower(u.Host)
+	return u.String()
+}
+
+func (t *histTransport) RoundTrip(req *http.Request) (*http.Response, error) {
+	t.mu.Lock()
+	defer t.mu.Unlock()
+	b, ok := t.docs[histKey(req)]
+	if !ok {
+		return &http.Response{StatusCode: 404, Status: "404 Not Found", Body: io.NopCloser(bytes.NewReader(nil)), Header: http.Header{}, Request: req}, nil
+	}
+	h := http.Header{}
+	h.Set("Content-Type", "application/ld+json")
+	h.Set("Cache-Control", "public, max-age=3600")
+	return &http.Response{StatusCode: 200, Status: "200 OK", Body: io.NopCloser(strings.NewReader(b)), Header: h, Request: req, ContentLength: int64(len(b))}, nil
+}
+
+func (d *drv) runHistory(hi int, n histNote) (int, string) {
+	tr := &histTransport{docs: n.Served}
+	ldr := loaders.NewDocumentLoader(nil, "", loaders.WithHTTPClient(&http.Client{Transport: tr}))
+	for i, st := range n.Seq {
+		mz, mo := mzrun.Merklize([]byte(st.Doc), merklize.WithHasher(d.hs[hi]), merklize.WithDocumentLoader(ldr))
+		d.rep.Evaluations++
+		got := "error: " + mo.Msg
+		if mo.Class == "ok" {
+			got = mz.Root().BigInt().String()
+		}
+		if got != st.Want {
+			return i, got
+		}
+	}
+	return -1, ""
+}
+
+// ctxHistory: two context URLs that differ only in query string / trailing slash / path case /
+// an escaped reserved character name DIFFERENT resources (different contents are served);
+// URLs that differ only in fragment / host case name the SAME resource.  All are cacheable.
+// Loaded one after the other through ONE loader: every document must get the root it has with
+// the served context inline, whatever was loaded before.
+func (d *drv) ctxHistory(doc *docgen.Doc, hi int, base *obs) {
+	if base.Class != "ok" {
+		return
+	}
+	obj, err := parseDoc(doc.Bytes)
+	if err != nil {
+		return
+	}
+	if _, isObj := obj["@context"].(map[string]any); !isObj {
+		if !d.swapContext(obj) {
+			return
+		}
+		if _, isObj := obj["@context"].(map[string]any); !isObj {
+			return
+		}
+	}
+	ctxBody, _ := json.Marshal(map[string]any{"@context": obj["@context"]})
+	altBody := bytes.ReplaceAll(ctxBody, []byte(docgen.Vocab), []byte("http://other.example/v#"))
+	var altCtx map[string]any
+	_ = json.Unmarshal(altBody, &altCtx)
+	objAlt := deepCopy(obj).(map[string]any)
+	objAlt["@context"] = altCtx["@context"]
+	altInline, _ := json.Marshal(objAlt)
+	oAlt, _, _ := d.observe(altInline, hi)
+	if oAlt.Class != "ok" || oAlt.Root == base.Root {
+		return
+	}
+	d.nCtx++
+	b := fmt.Sprintf("https://ctxsrv.example/h%d-%d", d.id, d.nCtx)
+	type fam struct {
+		name   string
+		u1, u2 string
+		same   bool // the two URLs name the same resource
+	}
+	fams := []fam{
+		{"query", b + "/person.jsonld?v=1", b + "/person.jsonld?v=2", false},
+		{"query-vs-none", b + "/person.jsonld", b + "/person.jsonld?lang=en", false},
+		{"trailing-slash", b + "/ctx", b + "/ctx/", false},
+		{"path-case", b + "/Person.jsonld", b + "/person.jsonld", false},
+		{"escaped-slash", b + "/a%2Fb.jsonld", b + "/a/b.jsonld", false},
+		{"query-order", b + "/c.jsonld?a=1&b=2", b + "/c.jsonld?b=2&a=1", false},
+		{"fragment", b + "/f.jsonld#one", b + "/f.jsonld#two", true},
+		{"host-case", b + "/hc.jsonld", strings.Replace(b, "ctxsrv.example", "CtxSrv.Example", 1) + "/hc.jsonld", true},
+	}
+	f := fams[d.rng.Intn(len(fams))]
+	d.rep.Count("ctx-history:" + f.name)
+	withCtx := func(u string) string {
+		o := deepCopy(obj).(map[string]any)
+		o["@context"] = u
+		v, _ := json.Marshal(o)
+		return string(v)
+	}
+	note := histNote{Served: map[string]string{}, Family: f.name}
+	norm := func(u string) string {
+		r, _ := http.NewRequest("GET", u, http.NoBody)
+		return histKey(r)
+	}
+	note.Served[norm(f.u1)] = string(ctxBody)
+	want2 := base.Root
+	if !f.same {
+		note.Served[norm(f.u2)] = string(altBody)
+		want2 = oAlt.Root
+	}
+	note.Seq = []histStep{{withCtx(f.u1), base.Root, f.u1}, {withCtx(f.u2), want2, f.u2}, {withCtx(f.u1), base.Root, f.u1}, {withCtx(f.u2), want2, f.u2}}
+	if d.rng.Intn(2) == 0 && !f.same { // the other one first
+		note.Seq = []histStep{note.Seq[1], note.Seq[0], note.Seq[3], note.Seq[2]}
+	}
+	if i, got := d.runHistory(hi, note); i >= 0 {
+		d.fail(fmt.Sprintf("contexts by URL through ONE loaders.NewDocumentLoader (family %s): step %d, context %s: %s; with the served context inline: %s",
+			f.name, i+1, note.Seq[i].URL, got, note.Seq[i].Want),
+			failInput{Kind: "ctx-history", Class: "c03-ctx-url-history", Doc: note.Seq[i].Doc, Hasher: hi, Note: jsonOf(note)})
+	}
+}
